@@ -3,8 +3,8 @@
    State enum of types.py).  Definitions only; lemmas are in Proof/StateCodec.v.
 
    What is copied from the source:
-   * the Python wrapper raises ValueError iff  sig >= (1 << State.NSTATE); a negative
-     signature is NOT rejected and reaches the kernel;
+   * the Python wrapper raises ValueError iff  sig < 0  or  sig >= (1 << State.NSTATE)
+     (the sig < 0 test was added by the fix for finding C15:sig_range:negative-signature-accepted);
    * one kernel task per world; if an `active` array was passed, a world with
      active[worldid] = false returns before touching anything;
    * `adr = 0; for i in range(NSTATE): element = 1 << i; if element & sig: <dispatch>`;
@@ -238,11 +238,11 @@ Fixpoint set_worlds (sz : Sizes) (sig : Z) (active : option (list bool)) (w : Z)
 (* None = ValueError raised by the wrapper (nothing launched) *)
 Definition get_state (sz : Sizes) (sig : Z) (active : option (list bool))
     (ds : list Data) (state : list (list V)) : option (list (list V)) :=
-  if sig >=? Z.shiftl 1 NSTATE then None else Some (get_worlds sz sig active 0 ds state).
+  if sig <? 0 then None else if sig >=? Z.shiftl 1 NSTATE then None else Some (get_worlds sz sig active 0 ds state).
 
 Definition set_state (sz : Sizes) (sig : Z) (active : option (list bool))
     (state : list (list V)) (ds : list Data) : option (list Data) :=
-  if sig >=? Z.shiftl 1 NSTATE then None else Some (set_worlds sz sig active 0 state ds).
+  if sig <? 0 then None else if sig >=? Z.shiftl 1 NSTATE then None else Some (set_worlds sz sig active 0 state ds).
 
 (* ---- specification vocabulary (used by the theorems) ------------------------- *)
 Definition bits : list Z := [0; 1; 2; 3; 4; 5; 6; 7; 8; 9; 10; 11; 12; 13].
@@ -324,6 +324,19 @@ Definition boolean (x : V) : Prop := b2v (v2b x) = x.
 Definition boolean_on_eq_active (sz : Sizes) (sig : Z) (v : list V) : Prop :=
   Forall boolean (slice_of 9 sz sig v bits).
 
+(* field i (the array behind bit i) is the same in d and d' -- stronger than equal
+   comp_get for eq_active, which is stored as bool *)
+Definition field_eq (i : Z) (d d' : Data) : Prop :=
+  match i with
+  | 0 => time d = time d' | 1 => qpos d = qpos d' | 2 => qvel d = qvel d'
+  | 3 => act d = act d' | 4 => history d = history d'
+  | 5 => qacc_warmstart d = qacc_warmstart d' | 6 => ctrl d = ctrl d'
+  | 7 => qfrc_applied d = qfrc_applied d' | 8 => xfrc_applied d = xfrc_applied d'
+  | 9 => eq_active d = eq_active d' | 10 => mocap_pos d = mocap_pos d'
+  | 11 => mocap_quat d = mocap_quat d' | 12 => userdata d = userdata d'
+  | _ => True
+  end.
+
 (* flattened Data, used by the correspondence check to compare with the real arrays *)
 Definition data_flat (d : Data) : list V :=
   time d :: qpos d ++ qvel d ++ act d ++ history d ++ qacc_warmstart d ++ ctrl d ++
@@ -349,3 +362,53 @@ Definition flat_datas (r : option (list (Data Z))) : list Z :=
 Definition get_stateZ := get_state Z b2z (-7).
 Definition set_stateZ := set_state Z z2b (-7).
 Definition state_sizeZ (sz : Sizes) (sig : Z) : Z := Z.of_nat (state_size sz sig).
+Definition get_rowZ := get_row Z b2z (-7).
+Definition set_rowZ := set_row Z z2b (-7).
+
+(* ---- finite companion: one concrete model, every signature 0 .. 2^14 - 1 ------ *)
+(* all component sizes non-zero and pairwise distinguishable by content *)
+Definition sz0 : Sizes := mkSizes 3 2 2 1 2 2 1 2 3.
+Definition d0 : Data Z :=
+  mkData 100 [110; 111; 112] [120; 121] [130] [140; 141; 142] [150; 151] [160; 161] [170; 171]
+    [180; 181; 182; 183; 184; 185; 186; 187; 188; 189; 190; 191] [true; false]
+    [200; 201; 202] [210; 211; 212; 213] [220; 221].
+Definition d1 : Data Z :=
+  mkData 300 [310; 311; 312] [320; 321] [330] [340; 341; 342] [350; 351] [360; 361] [370; 371]
+    [380; 381; 382; 383; 384; 385; 386; 387; 388; 389; 390; 391] [false; true]
+    [400; 401; 402] [410; 411; 412; 413] [420; 421].
+Definition row0 : list Z := map Z.of_nat (seq 1000 45).
+
+(* expected layout written as a plain table, independently of comp_get / the kernel *)
+Definition table0 : list (list Z) :=
+  [[100]; [110; 111; 112]; [120; 121]; [130]; [140; 141; 142]; [150; 151]; [160; 161]; [170; 171];
+   [180; 181; 182; 183; 184; 185; 186; 187; 188; 189; 190; 191]; [1065353216; 0];
+   [200; 201; 202]; [210; 211; 212; 213]; [220; 221]; []].
+Definition expect0 (sig : Z) : list Z :=
+  concat (map (fun it : Z * list Z => if Z.testbit sig (fst it) then snd it else [])
+              (combine bits table0)).
+
+(* field-wise merge: what set_state(sig, get_state(sig, d1)) must leave in d0 *)
+Definition merge (sig : Z) (a b : Data Z) : Data Z :=
+  let pick {T : Type} (i : Z) (x y : T) := if Z.testbit sig i then x else y in
+  mkData (pick 0 (time Z a) (time Z b)) (pick 1 (qpos Z a) (qpos Z b)) (pick 2 (qvel Z a) (qvel Z b))
+    (pick 3 (act Z a) (act Z b)) (pick 4 (history Z a) (history Z b))
+    (pick 5 (qacc_warmstart Z a) (qacc_warmstart Z b)) (pick 6 (ctrl Z a) (ctrl Z b))
+    (pick 7 (qfrc_applied Z a) (qfrc_applied Z b)) (pick 8 (xfrc_applied Z a) (xfrc_applied Z b))
+    (pick 9 (eq_active Z a) (eq_active Z b)) (pick 10 (mocap_pos Z a) (mocap_pos Z b))
+    (pick 11 (mocap_quat Z a) (mocap_quat Z b)) (pick 12 (userdata Z a) (userdata Z b)).
+
+Fixpoint zleq (a b : list Z) : bool :=
+  match a, b with
+  | [], [] => true
+  | x :: a', y :: b' => (x =? y) && zleq a' b'
+  | _, _ => false
+  end.
+
+Definition sweep_ok (sig : Z) : bool :=
+  let e := expect0 sig in
+  zleq (get_rowZ sz0 sig d0 row0) (e ++ skipn (length e) row0)
+  && (state_sizeZ sz0 sig =? Z.of_nat (length e))
+  && zleq (data_flat Z b2z (set_rowZ sz0 sig (get_rowZ sz0 sig d1 row0) d0))
+          (data_flat Z b2z (merge sig d1 d0))
+  && (let v := firstn (length e) row0 in   (* raw values are not 0/1: only without EQ_ACTIVE *)
+      Z.testbit sig 9 || zleq (get_rowZ sz0 sig (set_rowZ sz0 sig v d0) v) v).
